@@ -200,10 +200,25 @@ class CommandPipeline:
             except Exception:
                 xt.print_exception()
                 self._return_terminal()
+                # Stages started before the failing one would otherwise keep
+                # running with their pipe ends open (e.g. ``yes | no-such-cmd``):
+                # close the read ends so a blocked producer gets EPIPE, give
+                # it a moment to finish (this also reaps it), like
+                # _close_prev_procs() does for a normal pipeline.
+                for s, p in zip(specs[:i], self.procs, strict=False):
+                    for ch in s.pipe_channels:
+                        ch.close_reader()
+                    try:
+                        if hasattr(p, "join"):
+                            p.join(timeout=3)
+                        else:
+                            p.wait(timeout=3)
+                    except BaseException:
+                        pass
                 # Release any pipe wrappers held by specs that won't be
-                # routed through _close_proc(): the failing spec, plus any
-                # later specs that never got to run().
-                for s in specs[i:]:
+                # routed through _close_proc(): the stages stopped above, the
+                # failing spec, plus any later specs that never got to run().
+                for s in specs:
                     s.close()
                 self.proc = None
                 return
